@@ -53,6 +53,7 @@ import TlsModel.Crypto.Aes
 
   AEADs over the table block cipher:
     gcm_seal tabE nonce pt aad | gcm_open tabE nonce ct aad          Model: AESGCM.seal / open
+    gcm_seq tabE|aes:KEY (s|o nonce data aad)...                     Model: a HISTORY of seal/open calls on one AESGCM object
     gcm_mul h y                                                      Model: _mul(y) with the table built from h
     gcm_table h                                                      Model: _productTable
     gcm_gfmul x y | gcm_seal_spec ... | gcm_open_spec ...            Spec : SP 800-38D
@@ -297,6 +298,24 @@ def handleAead : List String → Option String
   | ["gcm_open_spec", tab, nonce, ct, aad] => do
     some (match Gcm.Spec.aopen (tabFn (← parseTab tab)) (← ofHex nonce) (← ofHex ct) (← ofHex aad) with
       | some b => hexOut b | none => "none")
+  | "gcm_seq" :: ciph :: rest => do
+    -- history on ONE object: calls are groups `s|o nonce data aad`; `ciph` = table or `aes:<keyhex>`
+    let E : Bytes → Bytes ←
+      if ciph.startsWith "aes:" then do
+        let key ← ofHex (ciph.drop 4).toString
+        match Aes.Model.init key with
+        | .ok k => some (fun b => match Aes.Model.encrypt k b with | .ok c => c | .error _ => [])
+        | .error _ => none
+      else (parseTab ciph).map tabFn
+    let rec groups : List String → Option (List Gcm.Model.Call)
+      | [] => some []
+      | op :: n :: d :: a :: more => do
+        some ({ isSeal := op == "s", nonce := ← ofHex n, data := ← ofHex d, aad := ← ofHex a } :: (← groups more))
+      | _ => none
+    let cs ← groups rest
+    some (errOut (fun (r : Gcm.Model.ObjS × List (Option Bytes)) =>
+        if r.2.isEmpty then "-" else " ".intercalate (r.2.map fun | some b => hexOut b | none => "none"))
+      (Gcm.Model.newS E >>= fun o => Gcm.Model.runCalls E o cs))
   | ["gcm_mul", h, y] => do
     let h ← h.toNat?; let y ← y.toNat?
     some (errOut toString (Gcm.Model.productTable h >>= fun t => Gcm.Model.mul t y))
